@@ -40,9 +40,10 @@ Print Assumptions C02_roundtrip_untied.
 (* the same with the rescaling spelled out in terms of the requested rate r, for the four class
    metrics: the defining count is within one sample of r * N_all clipped to the achievable range
    ([0, N] false negatives / false positives; [e, N + e] true positives / negatives, written here
-   after subtracting the e easy samples).  (_partial only in that TOPR/TONR are stated with the
-   rescaling expression of the code in the theorem above.) *)
-Theorem C02_roundtrip_rates_partial :
+   after subtracting the e easy samples), and for TOPR / TONR over the whole population
+   (count of test-positive / test-negative outcomes minus the easy positives / negatives within one
+   sample of r * N_all - e clipped to [0, N_hard]). *)
+Theorem C02_roundtrip_rates :
   forall (succ pred : Q -> Q), (forall x, x < succ x) -> (forall x, pred x < x) ->
   forall s r T,
   (ssorted (pos s) -> (0 <= easy_pos s)%Z -> threshold_at_tpr succ pred s r Linear = Ret T ->
@@ -54,15 +55,23 @@ Theorem C02_roundtrip_rates_partial :
      within1 (ctn (cm s (Fin T)) - easy_neg s)
              (clipQ 0 (inject_Z (len (neg s))) (r * inject_Z (len (neg s) + easy_neg s) - inject_Z (easy_neg s)))) /\
   (ssorted (neg s) -> (0 <= easy_neg s)%Z -> threshold_at_fpr succ pred s r Linear = Ret T ->
-     within1 (cfp (cm s (Fin T))) (clipQ 0 (inject_Z (len (neg s))) (r * inject_Z (len (neg s) + easy_neg s)))).
+     within1 (cfp (cm s (Fin T))) (clipQ 0 (inject_Z (len (neg s))) (r * inject_Z (len (neg s) + easy_neg s)))) /\
+  (ssorted (concat_scores s) -> (0 <= easy_pos s)%Z -> (0 <= easy_neg s)%Z -> threshold_at_topr succ pred s r Linear = Ret T ->
+     within1 (ctp (cm s (Fin T)) + cfp (cm s (Fin T)) - easy_pos s)
+             (clipQ 0 (inject_Z (nb_hard_samples s)) (r * inject_Z (nb_all_samples s) - inject_Z (easy_pos s)))) /\
+  (ssorted (concat_scores s) -> (0 <= easy_pos s)%Z -> (0 <= easy_neg s)%Z -> threshold_at_tonr succ pred s r Linear = Ret T ->
+     within1 (cfn (cm s (Fin T)) + ctn (cm s (Fin T)) - easy_neg s)
+             (clipQ 0 (inject_Z (nb_hard_samples s)) (r * inject_Z (nb_all_samples s) - inject_Z (easy_neg s)))).
 Proof.
   intros succ pred Hs Hp s r T.
   split; [intros; now apply (roundtrip_tpr_rate succ pred s r T Hs Hp)|].
   split; [intros; now apply (roundtrip_fnr_rate succ pred s r T Hs Hp)|].
   split; [intros; now apply (roundtrip_tnr_rate succ pred s r T Hs Hp)|].
-  intros; now apply (roundtrip_fpr_rate succ pred s r T Hs Hp).
+  split; [intros; now apply (roundtrip_fpr_rate succ pred s r T Hs Hp)|].
+  split; [intros; now apply (roundtrip_topr_rate succ pred s r T Hs Hp)|].
+  intros; now apply (roundtrip_tonr_rate succ pred s r T Hs Hp).
 Qed.
-Print Assumptions C02_roundtrip_rates_partial.
+Print Assumptions C02_roundtrip_rates.
 
 (* --- ties allowed: the metric just below and just above the returned threshold (counting with <
    and with <=) brackets the hard target to the same tolerance; stated on _threshold_at_ratio for any
